@@ -53,6 +53,10 @@ var texts = []string{"", "plain", "with: colon: inside", `{"json":true,"n":[1,2]
 
 func main() {
 	run := ev.Parse("C19", "exploration")
+	// message texts that are, or end with, the text of a class: a class is recognised by identity / status code, never by wording
+	for _, c := range classes {
+		texts = append(texts, "caused by: "+c.err.Error())
+	}
 	evals, nontriv := 0, 0
 	var samples ev.Samples
 	seen := map[string]bool{}
@@ -80,7 +84,7 @@ func main() {
 					continue // embed position: innermost, outermost (and all positions for shallow chains)
 				}
 				for ti, text := range texts {
-					for formIdx := 0; formIdx < 3; formIdx++ {
+					for formIdx := 0; formIdx < 4; formIdx++ {
 						for instIdx := -1; instIdx < len(instances[c.name]); instIdx++ {
 							for objIdx := 0; objIdx < 4; objIdx++ {
 								if embedAt < 0 && objIdx > 0 {
@@ -104,15 +108,25 @@ func main() {
 									want = map[string]any{"k": text, "n": float64(3)}
 								}
 								// wrapping form of each layer: a single %w, two %w verbs in one layer, errors.Join
-								form := []string{"%w", "%w+%w", "join"}[formIdx]
+								form := []string{"%w", "%w+%w", "join", "%w-first"}[formIdx]
 								for d := 0; d <= depth; d++ {
 									if d == embedAt {
+										if (ti+depth)%2 == 1 {
+											// an embedding that cannot be made (not marshalable) leaves the error as it is - and leaves
+											// nothing behind that could spoil the next one
+											if e2 := gerrors.EmbedObject(make(chan int), e); e2.Error() != e.Error() {
+												fail("embed-unmarshalable", fmt.Sprintf("EmbedObject of a channel changed the error text to %q", e2.Error()))
+											}
+										}
 										e = gerrors.EmbedObject(want, e)
 									}
 									if d < depth {
 										switch form {
 										case "%w":
 											e = fmt.Errorf("%s [layer %d]: %w", text, d, e)
+										case "%w-first":
+											// the wrapped error leads, the layer's own text ends the message
+											e = fmt.Errorf("%w: [layer %d] %s", e, d, text)
 										case "%w+%w":
 											e = fmt.Errorf("%s [layer %d]: %w (while handling %w)", text, d, e, stderrors.New("plain side error"))
 										default:
@@ -256,9 +270,9 @@ func main() {
 			}
 		}
 	}
-	samples.Add("all status codes 0..16 and 99 x 13 message texts through status.Error -> FromGRPCError / Is")
+	samples.Add("all status codes 0..16 and 99 x 25 message texts through status.Error -> FromGRPCError / Is")
 	run.Finish(ev.Coverage{
 		"evaluations": evals, "distinct_nontrivial": nontriv, "samples": samples.List, "exhaustive": true,
-		"rule": "full finite product: 10 classes with a gRPC code x 12 classes x wrap depth 0..4 (each layer a single %w, two %w verbs, or errors.Join), innermost error the class or a real OS error of the class, embedded object a struct / string / slice / map x embedded object position (none / innermost / outermost / every position for depth<=2) x 13 message texts (empty, colons, JSON, ESC without the marker, marker prefix, unicode, a fake rpc-error text, 1300 and 70000 bytes long); plus all 17 gRPC codes and one out-of-range code x 13 texts. Every case is distinct; non-trivial = every case except the OK code",
+		"rule": "full finite product: 10 classes with a gRPC code x 12 classes x wrap depth 0..4 (each layer a single trailing %w, a leading %w, two %w verbs, or errors.Join), innermost error the class or a real OS error of the class, embedded object a struct / string / slice / map x embedded object position (none / innermost / outermost / every position for depth<=2) x 25 message texts (empty, colons, JSON, ESC without the marker, marker prefix, unicode, a fake rpc-error text, 1300 and 70000 bytes long, texts ending with the wording of each class); every other embedding is preceded by one of an unmarshalable object; plus all 17 gRPC codes and one out-of-range code x 25 texts. Every case is distinct; non-trivial = every case except the OK code",
 	})
 }
